@@ -24,7 +24,8 @@
 EXTENDS Integers, Sequences, FiniteSets, TLC
 
 CONSTANTS ResetAcc,     \* TRUE: in-file headers are forgotten at each new pass (the documented behaviour)
-          SetSem        \* TRUE: a later [K: v] replaces an earlier one (Set); FALSE: first one wins (wrong)
+          SetSem,       \* TRUE: a later [K: v] replaces an earlier one (Set); FALSE: first one wins (wrong)
+          LimitDelivered \* TRUE: limit counts delivered entries; FALSE: entries scanned before the filter (wrong)
 
 Formats == {"uri", "uripost", "raw", "json"}
 HasHeaders(fmt) == fmt \in {"uri", "uripost"}      \* formats with in-file [Header: value] lines
@@ -109,6 +110,8 @@ ExpectedSel(fmt, items, limit, passes, chosen, take) ==
         one   == Sel(RunReader(fmt, items, St0, E), chosen)      \* the deliveries of one file pass
         m     == Len(one)
     IN  IF m = 0 THEN [deliv |-> <<>>, ended |-> TRUE, outcome |-> "error"]
+        ELSE IF ~LimitDelivered /\ limit > 0        \* wrong variant (negative control)
+        THEN [deliv |-> Sel(RunReader(fmt, items, St0, limit), chosen), ended |-> TRUE, outcome |-> "nil"]
         ELSE LET total == IF passes > 0 THEN passes * m ELSE -1
                  cap   == IF limit > 0 THEN (IF total >= 0 THEN Min(limit, total) ELSE limit) ELSE total
                  ends  == cap >= 0 /\ cap < take          \* the observer gets to see the end of ammo
